@@ -256,6 +256,8 @@ where stepPure (ws : List String) : Unit × String :=
     match bytesOfHex h with
     | some bs => ((), showParse (parse bs))
     | none => ((), "bad-op")
+  | ["nofile"] =>             -- load / save when the file cannot be opened / read: the environment refuses, the calls fail
+    ((), "nofile load=0 pload=0 perr=1 save=0 dirload=0 pdirload=0 pdirerr=1")
   | ["file", tr] =>           -- Xml::save(tree, f), Xml::load(f) and Xml::Parser::load(f)
     match parseTree tr with
     | some e => ((), showParse (parse (docToStr e)))
